@@ -151,6 +151,7 @@ Section Tables.
   Proof.
     unfold wf_node. destruct (assoc (kind n) S) as [sf|] eqn:A; [|discriminate]. intros Hc.
     pose proof (kind_ok_of _ _ A) as K. unfold kind_ok in K.
+    set (sf' := eff_struct (kind n) sf) in *.
     unfold table_children, src_children.
     destruct (assoc (kind n) T) as [steps|]; [|discriminate].
     destruct (assoc (kind n) src_template) as [its|]; [|discriminate].
@@ -562,6 +563,7 @@ Section Complete.
   Proof.
     unfold wf_node. destruct (assoc (kind n) St) as [sf|] eqn:A; [|discriminate]. intros Hc.
     pose proof (kind_ok_of T St Rs HT _ _ A) as K. unfold kind_ok in K.
+    remember (eff_struct (kind n) sf) as sf' eqn:Esf. clear A Esf sf. rename sf' into sf.
     destruct (assoc (kind n) T) as [steps|]; [|discriminate].
     unfold src_children.
     destruct (assoc (kind n) src_template) as [its|]; [|discriminate].
